@@ -491,11 +491,15 @@ pub struct Judge {
     s: RefState,
     bad_seen: bool,
     i: usize,
+    /// id under which each live label was last seen in a certificate (ids must be stable for the life
+    /// of an argument and distinct between live arguments; which numbers the solver's private
+    /// framework hands out is not prescribed)
+    seen_ids: [Option<usize>; 5],
 }
 
 impl Judge {
     pub fn new(kind: DynKind) -> Self {
-        Judge { kind, s: RefState::new(), bad_seen: false, i: 0 }
+        Judge { kind, s: RefState::new(), bad_seen: false, i: 0, seen_ids: [None; 5] }
     }
 
     pub fn step(&mut self, op: &Op, o: &StepObs) -> Option<Deviation> {
@@ -562,9 +566,16 @@ impl Judge {
                                 if m >> idx & 1 == 1 {
                                     return dev("bad_certificate", format!("certificate lists {} twice", label));
                                 }
-                                if !bad_seen && s.ids[idx] as usize != id {
-                                    return dev("bad_certificate", format!("certificate member {} has id {}, expected {}", label, id, s.ids[idx]));
+                                match self.seen_ids[idx] {
+                                    Some(prev) if prev != id => {
+                                        return dev("bad_certificate", format!("certificate member {} has id {} but had id {} in an earlier certificate (ids must be stable for the life of an argument)", label, id, prev));
+                                    }
+                                    _ => {}
                                 }
+                                if (0..5).any(|o| o != idx && s.has_arg(o as u8) && self.seen_ids[o] == Some(id)) {
+                                    return dev("bad_certificate", format!("certificate member {} has id {}, which another live argument also has", label, id));
+                                }
+                                self.seen_ids[idx] = Some(id);
                                 m |= 1 << idx;
                             }
                             if !fam.contains(&m) {
@@ -587,6 +598,9 @@ impl Judge {
             (_, OpClass::Valid) => {
                 if *o != StepObs::Ok {
                     return dev("valid_update_rejected", format!("valid update returned {}", o.describe()));
+                }
+                if let Op::RemArg(a) = op {
+                    self.seen_ids[*a as usize] = None;
                 }
                 self.s.apply(op);
             }
@@ -628,6 +642,8 @@ pub struct Alphabet {
     pub max_queries: usize,
     /// continuations consist of queries only
     pub queries_only: bool,
+    /// continuations are update operations followed by exactly one final query
+    pub updates_then_query: bool,
     /// number of history-tree nodes visited (prefixes)
     pub nodes: std::cell::Cell<u64>,
 }
@@ -713,6 +729,9 @@ impl Alphabet {
             return;
         }
         for op in self.ops(&s, bad_budget, queries) {
+            if self.updates_then_query && (op.is_query() != (depth == 1)) {
+                continue;
+            }
             let c = s.classify(&op);
             let mut s2 = s;
             let mut bb = bad_budget;
